@@ -261,14 +261,11 @@ func timeSinks(c *Ctx, m *ttModel, v ssa.Value, seen map[ssa.Value]bool, out *[]
 	}
 }
 
-func runC17(c *Ctx) {
+
+// ruleClock: every clock read that flows into a start time or a duration is made under the collector mutex.
+func ruleClock(c *Ctx, m *ttModel, rule string) {
 	p, l := c.P, c.L()
-	m := findTT(c, "ANCHOR")
-	if m == nil {
-		return
-	}
 	guard := m.guard
-	c.Note("model", map[string]string{"collector": m.T, "records": m.acT, "start_time_field": m.timeField, "open_count_field": m.cntField, "start_entries": names(m.starts), "stop_entries": names(m.stops)})
 	// CLOCK
 	n := 0
 	for _, f := range p.FnsIn("prometheus") {
@@ -284,11 +281,23 @@ func runC17(c *Ctx) {
 			}
 			n++
 			held := l.Held(call)
-			c.CheckAt("CLOCK", short(f), call, held.Has(guard), fmt.Sprintf("clock read outside %s (held: %s) flows into the tunnel-time computation (%s): a start registered between this read and the lock gets a later start time, "+
+			c.CheckAt(rule, short(f), call, held.Has(guard), fmt.Sprintf("clock read outside %s (held: %s) flows into the tunnel-time computation (%s): a start registered between this read and the lock gets a later start time, "+
 				"the duration is negative and Counter.Add panics with the mutex held", guard, held, strings.Join(sinks, "; ")))
 		}
 	}
-	c.Floor("CLOCK", "clock reads that flow into start times or durations", n, 3)
+	c.Floor(rule, "clock reads that flow into start times or durations", n, 3)
+
+}
+
+func runC17(c *Ctx) {
+	p, l := c.P, c.L()
+	m := findTT(c, "ANCHOR")
+	if m == nil {
+		return
+	}
+	guard := m.guard
+	c.Note("model", map[string]string{"collector": m.T, "records": m.acT, "start_time_field": m.timeField, "open_count_field": m.cntField, "start_entries": names(m.starts), "stop_entries": names(m.stops)})
+	ruleClock(c, m, "CLOCK")
 
 	rulePair(c, m)
 	ruleReset(c, m)
